@@ -58,6 +58,17 @@ package service
 //@             [KNewQ(ctxHeight(ctx), requestContextID) := bnil][KNewH(requestContextID) := bnil])
 //@ ensures [C05] only_the_consumer_of_an_issued_batch_is_debited: forall a Bytes, d Str :: {bal[a][d]} ordinary(a) && bal[a][d] < old(bal)[a][d] ==>
 //@      issuedNow(raw, requestContextID, a)
+//@ requires [C01] escrow_exactly_backed: escInv(raw, bal) && earnNonneg(raw)
+//@ ensures [C01] earnings_untouched: earnNonneg(raw) && (forall d Str :: {sumEarn(raw, d)} sumEarn(raw, d) == sumEarn(old(raw), d))
+//@ ensures [C01,C02] pending_total_grows_by_exactly_what_is_charged: (let rc := requestContext in
+//@      let F := filtIt(old(raw), ctxTime(ctx), rc.ServiceName, rc.Timeout, rc.ServiceFeeCap, rc.Consumer, rc.Providers, len(rc.Providers)) in
+//@      let Tot := totIt(old(raw), ctxTime(ctx), rc.ServiceName, rc.Timeout, rc.ServiceFeeCap, rc.Consumer, rc.Providers, len(rc.Providers)) in
+//@      let charged := rc.State == RUNNING && len(F) > 0 && len(F) >= rc.ResponseThreshold && !rc.SuperMode && canPay(old(bal), rc.Consumer, Tot) in
+//@      (allBase(old(raw), rc.ServiceName, rc.Providers) || rc.State != RUNNING) ==>
+//@      (forall d Str :: {sumPend(raw, d)} sumPend(raw, d) == sumPend(old(raw), d) + (charged ? amt(Tot, d) : 0)) &&
+//@      (forall d Str :: {bal[requestAcc][d]} bal[requestAcc][d] == old(bal)[requestAcc][d] + (charged ? amt(Tot, d) : 0)))
+//@ ensures [C01,C02] escrow_exactly_backed_kept: (allBase(old(raw), requestContext.ServiceName, requestContext.Providers) || requestContext.State != RUNNING) ==> escInv(raw, bal)
+//@ after escrow_exactly_backed_kept assume earnings_untouched pending_total_grows_by_exactly_what_is_charged
 
 // EndBlocker$1 = expiredRequestHandler(requestID, request): called for every still-pending request of an expired batch.
 //@ func EndBlocker$1
@@ -85,6 +96,15 @@ package service
 //@      (k != KBind(request.ServiceName, request.Provider) && k != KActID(requestID) && k != KActB(request.ServiceName, request.Provider, request.ExpirationHeight, requestID)) ==> raw[k] == old(raw)[k]
 //@ ensures [C12,C16] uncounts_exactly_this_marker: forall id Bytes :: {cntAct(raw, id)} cntAct(raw, id) == cntAct(old(raw), id) - ((id == ridCtx(requestID) && isActive(old(raw), requestID)) ? 1 : 0)
 //@ ensures [C05] no_ordinary_account_is_debited: forall a Bytes, d Str :: {bal[a][d]} ordinary(a) ==> bal[a][d] >= old(bal)[a][d]
+//@ requires [C01] escrow_exactly_backed: escInv(raw, bal) && earnNonneg(raw)
+//@ ensures [C01] earnings_untouched: earnNonneg(raw) && (forall d Str :: {sumEarn(raw, d)} sumEarn(raw, d) == sumEarn(old(raw), d))
+//@ ensures [C01] pending_total_drops_by_this_fee: forall d Str :: {sumPend(raw, d)} sumPend(raw, d) == sumPend(old(raw), d) - amt(request.ServiceFee, d)
+//@ ensures [C01,C02] the_escrow_can_always_pay_the_refund: !request.SuperMode ==> (let burn := slashBurn(old(raw), requestID) in
+//@      let slashed := !hasNeg(bindOf(old(raw), request.ServiceName, request.Provider).Deposit, burn) && canPay(old(bal), depositAcc, burn) in
+//@      let bal1 := (slashed ? bankBurn(old(bal), depositAcc, burn) : old(bal)) in canPay(bal1, requestAcc, request.ServiceFee))
+//@ after the_escrow_can_always_pay_the_refund assume earnings_untouched pending_total_drops_by_this_fee pending_requests_stay_well_formed_kept
+//@ ensures [C01,C02] escrow_exactly_backed_kept: escInv(raw, bal)
+//@ after escrow_exactly_backed_kept assume the_escrow_can_always_pay_the_refund earnings_untouched pending_total_drops_by_this_fee timeout_slashes_the_binding_and_refunds_the_consumer super_mode_neither_slashes_nor_refunds
 
 // EndBlocker$2 = expiredRequestBatchHandler(requestContextID, requestContext): called for every entry of the expiry queue at this height.
 //@ func EndBlocker$2
@@ -104,6 +124,8 @@ package service
 //@ loop IterateActiveRequests.0 invariant pos_in_range: 0 <= iterator_pos && iterator_pos <= itCount(iterator_snap, iterator_pfx)
 //@ loop IterateActiveRequests.0 invariant snapshot: iterator_snap == old(raw) && iterator_pfx == PActByCtx(requestContextID, batchCounter) && batchCounter == old(requestContext).BatchCounter && cblog == old(cblog)
 //@ loop IterateActiveRequests.0 invariant wf: WF(raw) && depInv(raw, bal)
+//@ loop IterateActiveRequests.0 invariant no_binding_created: forall s Str, p Bytes :: {raw[KBind(s, p)]} bindFound(raw, s, p) ==> bindFound(iterator_snap, s, p)
+//@ loop IterateActiveRequests.0 invariant [C01] escrow_exactly_backed: escInv(raw, bal) && earnNonneg(raw)
 //@ loop IterateActiveRequests.0 invariant [C05] no_ordinary_account_debited_so_far: forall a Bytes, d Str :: {bal[a][d]} ordinary(a) ==> bal[a][d] >= old(bal)[a][d]
 //@ loop IterateActiveRequests.0 invariant [C12] counts_of_other_contexts_kept: forall id Bytes :: {raw[KCtx(id)]} {cntAct(raw, id)} id != requestContextID ==> batchOK(raw, id)
 //@ loop IterateActiveRequests.0 invariant records_untouched: forall k Key :: {raw[k]} (!is_KBind(k) && !is_KActB(k) && !is_KActID(k)) ==> raw[k] == iterator_snap[k]
@@ -132,11 +154,15 @@ package service
 //@       (is_KNewQ(k) && knq_id(k) != requestContextID) || (is_KNewH(k) && k != KNewH(requestContextID))) ==> raw[k] == old(raw)[k]
 //@ ensures [C12] callback_once_if_the_batch_was_still_open: (let rc := requestContext in requestContext.BatchState == BATCHCOMPLETED || len(rc.ModuleName) == 0 ==> cblog == old(cblog))
 //@ ensures [C05] no_ordinary_account_is_debited: forall a Bytes, d Str :: {bal[a][d]} ordinary(a) ==> bal[a][d] >= old(bal)[a][d]
+//@ preserves [C01,C02] escrow_exactly_backed: escInv(raw, bal) && earnNonneg(raw)
+//@ ensures [C01,C15] price_terms_untouched_no_binding_created: (forall k Key :: {raw[k]} is_KPricing(k) ==> raw[k] == old(raw)[k]) &&
+//@      (forall s Str, p Bytes :: {raw[KBind(s, p)]} bindFound(raw, s, p) ==> bindFound(old(raw), s, p))
 
 // ---------------------------------------------------------------- message handlers (C05: authority; a message debits only its signer)
 //@ func handleMsgDefineService
 //@ vars service.handleMsgDefineService: ctx=github.com/cosmos/cosmos-sdk/types.Context#0 k=github.com/irismod/service/keeper.Keeper#0 msg=*github.com/irismod/service/types.MsgDefineService#0 err=error#0
 //@ props C05 C15 C20
+//@ preserves [C01,C02] escrow_exactly_backed: escInv(raw, bal) && earnNonneg(raw) && wfEarned(raw)
 //@ preserves [C10] never_more_batches_than_the_largest_total: cadInv(raw, ghostMaxTot)
 //@ preserves [C11] no_event_in_the_past: futInv(raw, ctxHeight(ctx))
 //@ preserves [C12,C16,C08] open_batches_count_their_pending_requests: cntInv(raw)
@@ -149,6 +175,7 @@ package service
 //@ func handleMsgBindService
 //@ vars service.handleMsgBindService: ctx=github.com/cosmos/cosmos-sdk/types.Context#0 k=github.com/irismod/service/keeper.Keeper#0 msg=*github.com/irismod/service/types.MsgBindService#0 found=bool#0 err=error#0
 //@ props C05 C03 C14 C15 C20
+//@ preserves [C01,C02] escrow_exactly_backed: escInv(raw, bal) && earnNonneg(raw) && wfEarned(raw)
 //@ preserves [C10] never_more_batches_than_the_largest_total: cadInv(raw, ghostMaxTot)
 //@ preserves [C11] no_event_in_the_past: futInv(raw, ctxHeight(ctx))
 //@ preserves [C12,C16,C08] open_batches_count_their_pending_requests: cntInv(raw)
@@ -167,6 +194,7 @@ package service
 //@ func handleMsgUpdateServiceBinding
 //@ vars service.handleMsgUpdateServiceBinding: ctx=github.com/cosmos/cosmos-sdk/types.Context#0 k=github.com/irismod/service/keeper.Keeper#0 msg=*github.com/irismod/service/types.MsgUpdateServiceBinding#0 err=error#0
 //@ props C05 C03 C14 C20
+//@ preserves [C01,C02] escrow_exactly_backed: escInv(raw, bal) && earnNonneg(raw) && wfEarned(raw)
 //@ preserves [C10] never_more_batches_than_the_largest_total: cadInv(raw, ghostMaxTot)
 //@ preserves [C11] no_event_in_the_past: futInv(raw, ctxHeight(ctx))
 //@ preserves [C12,C16,C08] open_batches_count_their_pending_requests: cntInv(raw)
@@ -183,6 +211,7 @@ package service
 //@ func handleMsgSetWithdrawAddress
 //@ vars service.handleMsgSetWithdrawAddress: ctx=github.com/cosmos/cosmos-sdk/types.Context#0 k=github.com/irismod/service/keeper.Keeper#0 msg=*github.com/irismod/service/types.MsgSetWithdrawAddress#0
 //@ props C05 C13 C20
+//@ preserves [C01,C02] escrow_exactly_backed: escInv(raw, bal) && earnNonneg(raw) && wfEarned(raw)
 //@ preserves [C10] never_more_batches_than_the_largest_total: cadInv(raw, ghostMaxTot)
 //@ preserves [C11] no_event_in_the_past: futInv(raw, ctxHeight(ctx))
 //@ preserves [C12,C16,C08] open_batches_count_their_pending_requests: cntInv(raw)
@@ -195,6 +224,7 @@ package service
 //@ func handleMsgDisableServiceBinding
 //@ vars service.handleMsgDisableServiceBinding: ctx=github.com/cosmos/cosmos-sdk/types.Context#0 k=github.com/irismod/service/keeper.Keeper#0 msg=*github.com/irismod/service/types.MsgDisableServiceBinding#0 err=error#0
 //@ props C05 C03 C20
+//@ preserves [C01,C02] escrow_exactly_backed: escInv(raw, bal) && earnNonneg(raw) && wfEarned(raw)
 //@ preserves [C10] never_more_batches_than_the_largest_total: cadInv(raw, ghostMaxTot)
 //@ preserves [C11] no_event_in_the_past: futInv(raw, ctxHeight(ctx))
 //@ preserves [C12,C16,C08] open_batches_count_their_pending_requests: cntInv(raw)
@@ -209,6 +239,7 @@ package service
 //@ func handleMsgEnableServiceBinding
 //@ vars service.handleMsgEnableServiceBinding: ctx=github.com/cosmos/cosmos-sdk/types.Context#0 k=github.com/irismod/service/keeper.Keeper#0 msg=*github.com/irismod/service/types.MsgEnableServiceBinding#0 err=error#0
 //@ props C05 C03 C14 C20
+//@ preserves [C01,C02] escrow_exactly_backed: escInv(raw, bal) && earnNonneg(raw) && wfEarned(raw)
 //@ preserves [C10] never_more_batches_than_the_largest_total: cadInv(raw, ghostMaxTot)
 //@ preserves [C11] no_event_in_the_past: futInv(raw, ctxHeight(ctx))
 //@ preserves [C12,C16,C08] open_batches_count_their_pending_requests: cntInv(raw)
@@ -226,6 +257,7 @@ package service
 //@ func handleMsgRefundServiceDeposit
 //@ vars service.handleMsgRefundServiceDeposit: ctx=github.com/cosmos/cosmos-sdk/types.Context#0 k=github.com/irismod/service/keeper.Keeper#0 msg=*github.com/irismod/service/types.MsgRefundServiceDeposit#0 err=error#0
 //@ props C05 C03 C20
+//@ preserves [C01,C02] escrow_exactly_backed: escInv(raw, bal) && earnNonneg(raw) && wfEarned(raw)
 //@ preserves [C10] never_more_batches_than_the_largest_total: cadInv(raw, ghostMaxTot)
 //@ preserves [C11] no_event_in_the_past: futInv(raw, ctxHeight(ctx))
 //@ preserves [C12,C16,C08] open_batches_count_their_pending_requests: cntInv(raw)
@@ -242,6 +274,7 @@ package service
 //@ vars service.handleMsgPauseRequestContext: ctx=github.com/cosmos/cosmos-sdk/types.Context#0 k=github.com/irismod/service/keeper.Keeper#0 msg=*github.com/irismod/service/types.MsgPauseRequestContext#0 err=error#0 err=error#1
 //@ preserves [C01,C02,C16,C11] pending_requests_stay_well_formed: actInv(raw)
 //@ props C05 C09 C20
+//@ preserves [C01,C02] escrow_exactly_backed: escInv(raw, bal) && earnNonneg(raw) && wfEarned(raw)
 //@ preserves [C10] never_more_batches_than_the_largest_total: cadInv(raw, ghostMaxTot)
 //@ preserves [C11] no_event_in_the_past: futInv(raw, ctxHeight(ctx))
 //@ preserves [C12,C16,C08] open_batches_count_their_pending_requests: cntInv(raw)
@@ -257,6 +290,7 @@ package service
 //@ vars service.handleMsgStartRequestContext: ctx=github.com/cosmos/cosmos-sdk/types.Context#0 k=github.com/irismod/service/keeper.Keeper#0 msg=*github.com/irismod/service/types.MsgStartRequestContext#0 err=error#0 err=error#1
 //@ preserves [C01,C02,C16,C11] pending_requests_stay_well_formed: actInv(raw)
 //@ props C05 C09 C20
+//@ preserves [C01,C02] escrow_exactly_backed: escInv(raw, bal) && earnNonneg(raw) && wfEarned(raw)
 //@ preserves [C10] never_more_batches_than_the_largest_total: cadInv(raw, ghostMaxTot)
 //@ preserves [C11] no_event_in_the_past: futInv(raw, ctxHeight(ctx))
 //@ preserves [C12,C16,C08] open_batches_count_their_pending_requests: cntInv(raw)
@@ -271,6 +305,7 @@ package service
 //@ vars service.handleMsgKillRequestContext: ctx=github.com/cosmos/cosmos-sdk/types.Context#0 k=github.com/irismod/service/keeper.Keeper#0 msg=*github.com/irismod/service/types.MsgKillRequestContext#0 err=error#0 err=error#1
 //@ preserves [C01,C02,C16,C11] pending_requests_stay_well_formed: actInv(raw)
 //@ props C05 C09 C20
+//@ preserves [C01,C02] escrow_exactly_backed: escInv(raw, bal) && earnNonneg(raw) && wfEarned(raw)
 //@ preserves [C10] never_more_batches_than_the_largest_total: cadInv(raw, ghostMaxTot)
 //@ preserves [C11] no_event_in_the_past: futInv(raw, ctxHeight(ctx))
 //@ preserves [C12,C16,C08] open_batches_count_their_pending_requests: cntInv(raw)
@@ -286,6 +321,7 @@ package service
 //@ vars service.handleMsgUpdateRequestContext: ctx=github.com/cosmos/cosmos-sdk/types.Context#0 k=github.com/irismod/service/keeper.Keeper#0 msg=*github.com/irismod/service/types.MsgUpdateRequestContext#0 err=error#0 err=error#1
 //@ preserves [C01,C02,C16,C11] pending_requests_stay_well_formed: actInv(raw)
 //@ props C05 C09 C10 C20
+//@ preserves [C01,C02] escrow_exactly_backed: escInv(raw, bal) && earnNonneg(raw) && wfEarned(raw)
 //@ requires [C10] never_more_batches_than_the_largest_total: cadInv(raw, ghostMaxTot)
 //@ ensures [C10] never_more_batches_than_the_largest_total_kept: err == NoErr ==> cadInv(raw, maxNext(ghostMaxTot, raw))
 //@ preserves [C11] no_event_in_the_past: futInv(raw, ctxHeight(ctx))
@@ -304,6 +340,7 @@ package service
 //@ func handleMsgCallService
 //@ vars service.handleMsgCallService: ctx=github.com/cosmos/cosmos-sdk/types.Context#0 k=github.com/irismod/service/keeper.Keeper#0 msg=*github.com/irismod/service/types.MsgCallService#0 reqContextID=github.com/tendermint/tendermint/libs/bytes.HexBytes#0 err=error#0 moduleService=*github.com/irismod/service/types.ModuleService#0 found=bool#0 err=error#1
 //@ props C05 C10 C11 C09 C20 C16 C12
+//@ preserves [C01,C02] escrow_exactly_backed: escInv(raw, bal) && earnNonneg(raw) && wfEarned(raw)
 //@ modifies raw, bal, supply, cblog
 //@ preserves wf: WF(raw)
 //@ preserves [C03] deposits_in_custody: depInv(raw, bal)
@@ -330,14 +367,9 @@ package service
 //@ preserves [C11] queues_stay_well_formed: schedInv(raw)
 //@ preserves [C16,C08,C02,C01] pending_requests_stay_well_formed: actInv(raw)
 //@ modifies raw, bal, supply, cblog
-//@ requires [C20] slash_and_refund_can_be_paid: requestFound(raw, msg.RequestId) ==> (!hasNeg(bindOf(raw, reqSvc(raw, msg.RequestId), reqProv(raw, msg.RequestId)).Deposit, slashBurn(raw, msg.RequestId)) &&
-//@      canPay(bal, depositAcc, slashBurn(raw, msg.RequestId)) && canPay(bankBurn(bal, depositAcc, slashBurn(raw, msg.RequestId)), requestAcc, reqFee(raw, msg.RequestId)))
+//@ preserves [C01,C02] escrow_exactly_backed: escInv(raw, bal) && earnNonneg(raw) && wfEarned(raw)
 //@ preserves wf: WF(raw)
 //@ preserves [C03] deposits_in_custody: depInv(raw, bal)
-//@ requires binding_of_request_exists: requestFound(raw, msg.RequestId) ==> bindFound(raw, reqSvc(raw, msg.RequestId), reqProv(raw, msg.RequestId))
-//@ requires fee_nonneg: requestFound(raw, msg.RequestId) ==> (forall i Int :: {reqFee(raw, msg.RequestId)[i]} 0 <= i && i < len(reqFee(raw, msg.RequestId)) ==> reqFee(raw, msg.RequestId)[i].Amount >= 0)
-//@ requires stored_in_range: requestFound(raw, msg.RequestId) ==> rng_RequestContext(ctxOf(raw, reqCtxId(raw, msg.RequestId)))
-//@ requires consumer_ordinary: requestFound(raw, msg.RequestId) ==> ordinary(reqConsumer(raw, msg.RequestId))
 //@ ensures [C05,C08] only_the_designated_provider_while_pending: err == NoErr ==> requestFound(old(raw), msg.RequestId) && addrEq(msg.Provider, reqProv(old(raw), msg.RequestId)) && isActive(old(raw), msg.RequestId)
 //@ ensures [C08] rejected_response_changes_nothing: (!requestFound(old(raw), msg.RequestId) || !addrEq(msg.Provider, reqProv(old(raw), msg.RequestId)) || !isActive(old(raw), msg.RequestId))
 //@      ==> err != NoErr && raw == old(raw) && bal == old(bal) && supply == old(supply)
@@ -345,6 +377,7 @@ package service
 //@ func handleMsgWithdrawEarnedFees
 //@ vars service.handleMsgWithdrawEarnedFees: ctx=github.com/cosmos/cosmos-sdk/types.Context#0 k=github.com/irismod/service/keeper.Keeper#0 msg=*github.com/irismod/service/types.MsgWithdrawEarnedFees#0 err=error#0
 //@ props C05 C13 C20
+//@ preserves [C01,C02] escrow_exactly_backed: escInv(raw, bal) && earnNonneg(raw) && wfEarned(raw)
 //@ preserves [C10] never_more_batches_than_the_largest_total: cadInv(raw, ghostMaxTot)
 //@ preserves [C11] no_event_in_the_past: futInv(raw, ctxHeight(ctx))
 //@ preserves [C12,C16,C08] open_batches_count_their_pending_requests: cntInv(raw)
@@ -356,6 +389,8 @@ package service
 //@ requires recorded_earnings_nonneg: forall d Str :: pfxSum(raw, PEarned(msg.Provider), d) >= 0 && pfxSum(raw, POwnerEarned(msg.Owner), d) >= 0
 //@ ensures [C05] only_the_provider_owner: err == NoErr && len(msg.Provider) > 0 ==> addrEq(msg.Owner, ownerOf(old(raw), msg.Provider))
 //@ ensures [C05] only_the_escrow_is_debited: err == NoErr ==> (forall a Bytes, d Str :: {bal[a][d]} a != requestAcc ==> bal[a][d] >= old(bal)[a][d])
+//@ requires [C01] a16_withdrawal_address_is_an_ordinary_account: ordinary(withdrawAddrOf(raw, msg.Owner))
+//@ requires [C13] owner_total_is_the_sum_of_its_providers_earnings: len(msg.Provider) == 0 ==> ownerTotalOK(raw, msg.Owner)
 
 // ---------------------------------------------------------------- zero-height export preparation (C19)
 //@ func PrepForZeroHeightGenesis
@@ -396,6 +431,7 @@ package service
 //@ loop IterateNewRequestBatch.0 invariant snapshot: iterator_snap == call_raw && iterator_pfx == PNewQ(ctxHeight(ctx)) && requestBatchHeight == ctxHeight(ctx)
 //@ loop IterateNewRequestBatch.0 invariant wf: WF(raw) && depInv(raw, bal) && actInv(raw) && schedInv(raw) && cntInv(raw)
 //@ loop IterateNewRequestBatch.0 invariant [C11] no_event_in_the_past: futInv(raw, ctxHeight(ctx)) && cadInv(raw, ghostMaxTot)
+//@ loop IterateNewRequestBatch.0 invariant [C01] escrow_exactly_backed: escInv(raw, bal) && earnNonneg(raw) && pricesInBase(raw)
 //@ loop IterateNewRequestBatch.0 invariant [C11] visited_entries_consumed: forall id Bytes :: {raw[KNewQ(ctxHeight(ctx), id)]}
 //@      (iterator_snap[KNewQ(ctxHeight(ctx), id)] == bnil || itIdx(iterator_snap, iterator_pfx, KNewQ(ctxHeight(ctx), id)) < iterator_pos) ==> raw[KNewQ(ctxHeight(ctx), id)] == bnil
 //@ loop IterateNewRequestBatch.0 invariant [C05] debited_so_far_issued_a_batch: forall a Bytes, d Str :: {bal[a][d]} ordinary(a) && bal[a][d] < old(bal)[a][d] ==>
@@ -410,9 +446,12 @@ package service
 //@      raw[KCtx(id)] == iterator_snap[KCtx(id)]
 //@ loop IterateExpiredRequestBatch.0 invariant [C05] no_ordinary_account_debited_so_far: forall a Bytes, d Str :: {bal[a][d]} ordinary(a) ==> bal[a][d] >= old(bal)[a][d]
 //@ loop IterateExpiredRequestBatch.0 invariant queues_ok: schedInv(raw) && cntInv(raw) && futInv(raw, ctxHeight(ctx)) && cadInv(raw, ghostMaxTot)
+//@ loop IterateExpiredRequestBatch.0 invariant [C01] escrow_exactly_backed: escInv(raw, bal) && earnNonneg(raw) && pricesInBase(raw)
 //@ loop IterateExpiredRequestBatch.0 invariant unvisited_contexts_untouched: forall id Bytes :: {raw[KCtx(id)]} {raw[KExpH(id)]} {raw[KNewH(id)]}
 //@      (iterator_snap[KExpQ(ctxHeight(ctx), id)] != bnil && itIdx(iterator_snap, iterator_pfx, KExpQ(ctxHeight(ctx), id)) >= iterator_pos) ==>
 //@      raw[KCtx(id)] == iterator_snap[KCtx(id)] && raw[KExpH(id)] == iterator_snap[KExpH(id)] && raw[KNewH(id)] == iterator_snap[KNewH(id)]
+//@ preserves [C01] a15_prices_in_base_denom: pricesInBase(raw)
+//@ preserves [C01,C02] escrow_exactly_backed: escInv(raw, bal) && earnNonneg(raw)
 
 // ---------------------------------------------------------------- genesis export / import (C19, second half)
 //@ func ExportGenesis
